@@ -299,8 +299,12 @@ def run_check(pid: str, tier: str) -> int:
             else:
                 inconclusive.append(ob.name)
 
+    seen = set()
     for line in known_lines:
-        print(line)
+        key = line.split(" [witness", 1)[0]
+        if key not in seen:
+            seen.add(key)
+            print(line)
     for ob, r, path in violations:
         print(f"VIOLATION property={pid} replay={path}")
         print(f"  obligation {ob.name}: {r.detail} when calling {r.call}")
